@@ -7263,6 +7263,12 @@ static int32 writeCertificateVerify(ssl_t *ssl, sslBuf_t *out)
 #     ifdef USE_DTLS
         if (ACTV_VER(ssl, v_dtls_any) && ssl->retransmit)
         {
+            if (ssl->certVerifyMsg == NULL)
+            {
+                /* Nothing was saved: this flight was never sent before */
+                psTraceErrr("No CertificateVerify to retransmit\n");
+                return MATRIXSSL_ERROR;
+            }
             Memcpy(c, ssl->certVerifyMsg, ssl->certVerifyMsgLen);
             c += ssl->certVerifyMsgLen;
         }
@@ -7376,6 +7382,12 @@ static int32 writeCertificateVerify(ssl_t *ssl, sslBuf_t *out)
     if (ACTV_VER(ssl, v_dtls_any) && ssl->retransmit)
     {
         pkaAfter->type = 0;     /* reset so AFTER logic doesn't trigger */
+        if (ssl->certVerifyMsg == NULL)
+        {
+            /* Nothing was saved: this flight was never sent before */
+            psTraceErrr("No CertificateVerify to retransmit\n");
+            return MATRIXSSL_ERROR;
+        }
         Memcpy(c, ssl->certVerifyMsg, ssl->certVerifyMsgLen);
         c += ssl->certVerifyMsgLen;
     }
